@@ -813,4 +813,35 @@ def search(res, tier, boost=False):
                 res.count(('eval', domain, problem, t, xh), True)
                 if abs(ev - cf) > 1e-5 * max(abs(cf), 1e-9):
                     res.violation('C08:evaluate-inaccurate:%s' % domain, dict(domain=domain, problem=problem, t=t, x_hat=xh, value=float(ev), closed_form=cf))
+    # long-lived InitialOperator, re-created meshes (example.py --refinement uniform --grading): the loads it delivers for the
+    # elements of the new mesh object equal the loads of an operator created on that mesh
+    from ..slchecks import regrid_iterations
+    for k, mesh_k, els, old, fresh in regrid_iterations('UnitSquare', n_iter=2, with_m0=lambda xy: 1 + 0 * xy[0]):
+        with contextlib.redirect_stdout(io.StringIO()):
+            got = np.asarray(old['M0'].linform_vector(elems=els[:12]), dtype=float).reshape(-1)
+            want = np.array([fresh['M0'].linform(e)[0] for e in els[:12]]) if k else got
+        res.count(('regrid-load', k), True)
+        if k and not np.array_equal(got, want):
+            res.violation('C08:vector-not-own-loads:long-lived-operator', dict(iteration=k, got=[float(v) for v in got], want=[float(v) for v in want],
+                          note='operator created on the mesh of iteration 0, elements of the re-created mesh'))
+    # one cache directory, the same boundary elements requested in different orders, cold / warm / by a later operator object:
+    # every load vector is the caller's own loads in the caller's order
+    from ..slchecks import cache_order_probe
+    from src.mesh import MeshParametrized
+    import src.parametrization as Pm_
+    from src.initial_potential import InitialOperator
+    from src.initial_mesh import UnitSquareBoundaryRefined
+    with contextlib.redirect_stdout(io.StringIO()):
+        mesh_c = MeshParametrized(Pm_.UnitSquare())
+        mesh_c.uniform_refine()
+        ref_c = InitialOperator(bdr_mesh=mesh_c, u0=lambda xy: 1 + xy[0], initial_mesh=UnitSquareBoundaryRefined)
+    els_c = list(mesh_c.leaf_elements)[:10]
+    for nm, ph, got, lst in cache_order_probe(lambda d: InitialOperator(bdr_mesh=mesh_c, u0=lambda xy: 1 + xy[0], initial_mesh=UnitSquareBoundaryRefined, cache_dir=d),
+                                              lambda op, l: np.asarray(op.linform_vector(elems=l)).reshape(-1), els_c, rng):
+        res.count(('cache-order-load', nm, ph), True)
+        with contextlib.redirect_stdout(io.StringIO()):
+            want = np.array([ref_c.linform(e)[0] for e in lst])
+        if not np.array_equal(got, want):
+            res.violation('C08:vector-not-own-loads:cache-element-order', dict(order=nm, phase=ph, got=[float(v) for v in got[:6]], want=[float(v) for v in want[:6]]))
+            break
     res.notes['worst_rel_error'] = worst
